@@ -70,7 +70,7 @@ def ancestor(p, n):
 # case generation: INPUTS only (leaf populations, leaf pixel values, stale positions, live sets)
 # ------------------------------------------------------------------------------------------------
 
-def _leaf_matrix(rng, T, mode, dtag, values, style):
+def _leaf_matrix(rng, T, mode, dtag, values, style, infs=None):
     """A T x T matrix of leaf pixel values: () = undefined (Float only), else a tuple of channel values."""
     def undefined():
         return () if mode == "Float" else ((0,) if mode == "Int" else (0, 0, 0, 0))
@@ -100,6 +100,20 @@ def _leaf_matrix(rng, T, mode, dtag, values, style):
         v = defined()
         return tuple(tuple(v for _ in range(T)) for _ in range(T))
     m = tuple(tuple(undefined() if (r, c) in und else defined() for c in range(T)) for r in range(T))
+    if infs and mode == "Float":
+        # +inf / -inf are DEFINED values: "p" some +inf, "n" some -inf, "both" both signs, "only" every defined pixel
+        # infinite (one sign per leaf)
+        sign = rng.choice([1, -1])
+
+        def swap(px):
+            if px == ():
+                return px
+            if infs == "only":
+                return (sign, 0)
+            if rng.random() < 0.3:
+                return ({"p": 1, "n": -1}.get(infs) or rng.choice([1, -1]), 0)
+            return px
+        m = tuple(tuple(swap(px) for px in row) for row in m)
     if mode == "Int" and all(px == (0,) for row in m for px in row):       # outside the domain: all-zero int leaf
         return _leaf_matrix(rng, T, mode, dtag, values, "one")
     return m
@@ -135,6 +149,11 @@ def make_case(rng, cid, T, depth, fmt, dtag, run="serial", pleaf=None, stale_p=0
     all_leaves = level(depth)
     if pleaf is None:
         pleaf = rng.choice([0.25, 0.5, 0.8, 1.0])
+    inf_classes = []
+    if mode == "Float" and (shape == "inf-mix" or rng.random() < 0.25):
+        inf_classes = ["p", "n", "both", "only"] if shape == "inf-mix" else [rng.choice(["p", "n", "both", "only"]), None]
+    if shape == "inf-mix":
+        pleaf = max(pleaf, 0.6)
     for l in all_leaves:
         if rng.random() >= pleaf:
             continue
@@ -142,7 +161,8 @@ def make_case(rng, cid, T, depth, fmt, dtag, run="serial", pleaf=None, stale_p=0
             style = "const"
         else:
             style = rng.choice(["rand", "rand", "rand", "full", "one", "row"] + (["allu"] if can_u else []))
-        leaves[l] = _leaf_matrix(rng, T, mode, dtag, values, style)
+        infs = inf_classes[len(leaves) % len(inf_classes)] if inf_classes else None
+        leaves[l] = _leaf_matrix(rng, T, mode, dtag, values, style, infs)
     if shape == "full-then-sparse" and depth >= 1:
         # the first parent in walk order gets four full children, the next ones sparse / partly undefined ones:
         # a merge buffer that is not cleared between merges shows through
@@ -173,6 +193,7 @@ def make_case(rng, cid, T, depth, fmt, dtag, run="serial", pleaf=None, stale_p=0
         for k in rng.sample(kids(par), rng.randint(1, 4)):
             leaves[k] = _leaf_matrix(rng, T, mode, dtag, values, "allu")
     has_data = set(l for l, m in leaves.items() if not _is_allu(m, mode))
+    has_finite = any(len(px) == 1 for m in leaves.values() for row in m for px in row) if mode != "Colour" else False
     # stale files only where the cascade will find a child to merge (DESIGN 5/C02; CaseOK re-checks it in TLC)
     eligible = set()
     for n in range(depth):
@@ -202,7 +223,7 @@ def make_case(rng, cid, T, depth, fmt, dtag, run="serial", pleaf=None, stale_p=0
     rewrite = fmt in ("fits", "npy") and rng.random() < (rewrite_p if rewrite_p is not None else 0.15)
     return {"id": cid, "T": T, "depth": depth, "fmt": fmt, "dtag": dtag, "mode": mode, "run": run, "keepu": bool(keepu),
             "leaves": leaves, "stale": stale, "live": live, "sv": sv, "scale": scale,
-            "has_data": bool(has_data), "negzero": negzero, "rewrite": rewrite}
+            "has_data": bool(has_data), "has_finite": has_finite, "negzero": negzero, "rewrite": rewrite}
 
 
 def tla_case(c):
@@ -219,7 +240,7 @@ def tla_case(c):
                                           tla.lit(set(c["stale"])), tla.lit(c["sv"])))
 
 
-INVARIANTS = ["CaseOK", "DoneRight", "RestUntouched", "ExistenceRule", "ExistsIffDataBelow", "StaleReplaced",
+INVARIANTS = ["CaseOK", "InDomain", "DoneRight", "RestUntouched", "ExistenceRule", "ExistsIffDataBelow", "StaleReplaced",
               "NeverStoredUndefined", "RangeRule", "LeafRangeRule", "NoRangeUnlessRanged", "Progress", "SerialAdmitted",
               "MergeCommutes"]
 
@@ -274,6 +295,8 @@ def abstract_arrays(px, mode, scale):
         num, den = a[:, :, 0, 0], a[:, :, 0, 1]
         with np.errstate(divide="ignore", invalid="ignore"):
             v = np.where(den == 0, np.nan, num / np.where(den == 0, 1, den)) * scale
+        v = np.where((den == 0) & (num > 0), np.inf, v)         # <<1, 0>> = +inf, <<-1, 0>> = -inf, <<0, 0>> = NaN
+        v = np.where((den == 0) & (num < 0), -np.inf, v)
         return v, v
     lo, hi = a[..., 0], a[..., 1]
     if mode == "Int":
@@ -383,7 +406,8 @@ def compare_tile(arr, exp_px, meta, h, maxabs):
     if mode == "Float":
         tol = float_tol(meta, maxabs, h)
         nan_e, nan_a = np.isnan(llo), np.isnan(a)
-        bad = (nan_e != nan_a) | (~nan_e & ~nan_a & (np.abs(a - np.where(nan_e, 0, llo)) > tol))
+        with np.errstate(invalid="ignore"):
+            bad = (nan_e != nan_a) | (~nan_e & ~nan_a & (a != llo) & ~(np.abs(a - np.where(nan_e, 0, llo)) <= tol))
     else:
         bad = (a < llo) | (a > lhi)
     if fmt == "jpg":
@@ -557,9 +581,13 @@ def replay_case(job):
         if fmt == "fits" and rec["ranged"] and not rec["keepu"]:
             for p in sorted(set(final) & set(found)):
                 rng_ = final[p]["rng"]
-                if not rng_:
-                    continue
                 _arr, hdr = load_raw(found[p], fmt)
+                if not rng_:
+                    # no finite value beneath this tile (all its data infinite): there is nothing a card could equal
+                    if hdr:
+                        add("C14", "V", "tile-range:%s" % runkind, "tile %s records %s although no finite value lies beneath it" % (p, hdr))
+                        break
+                    continue
                 want = (np.float32(rng_[0] * meta["scale"]), np.float32(rng_[1] * meta["scale"]))
                 if "DATAMIN" not in hdr or "DATAMAX" not in hdr:
                     add("C14", "V", "tile-range:%s" % runkind, "tile %s records %s, expected DATAMIN/DATAMAX = %s" % (p, hdr, want))
@@ -657,7 +685,7 @@ def _plain(meta):
 # depth-1 family enumerated by TLC itself (T = 2): every leaf absent or one of these matrices
 ENUM_MATRICES_QUICK = ["<<<<<<>>, <<>>>>, <<<<>>, <<>>>>>>",          # entirely undefined
                        "<<<<<<0>>, <<2>>>>, <<<<3>>, <<5>>>>>>",      # full, four different values, minimum exactly 0
-                       "<<<<<<-7>>, <<>>>>, <<<<>>, <<10>>>>>>"]      # diagonal
+                       "<<<<<<-7>>, <<1, 0>>>>, <<<<>>, <<10>>>>>>"]  # -7, +inf / undefined, 10: an infinite pixel beside the extremes
 ENUM_VALS_THOROUGH = "{<<>>, <<1>>}"
 
 
@@ -721,6 +749,7 @@ def build_cases(ctx, T, depth, plan, parallel_plan, mult=1, allow_keepu=True, re
         if CONFIGS[(fmt, dtag)] == "Float":
             new(fmt, dtag, shape="zero-min", run="serial")
             new(fmt, dtag, shape="zero-max", run="cli")
+            new(fmt, dtag, shape="inf-mix", run="serial")
         for i in range(n):
             run = ["serial", "serial", "cli", "serial", "filter", "serial"][i % 6]
             new(fmt, dtag, run=run)
@@ -738,8 +767,12 @@ def jobs_for(ctx, cases, recs):
         meta = dict((k, v) for k, v in c.items() if k != "leaves")
         meta["scratch"] = ctx.scratch
         jobs.append((meta, rec))
-    if len(jobs) != len(cases):
-        ctx.machinery("TLC emitted %d terminal records for %d cases" % (len(jobs), len(cases)))
+    skipped = len(cases) - len(jobs)
+    if skipped:
+        # cases outside the domain `Connected` (a tile vanishing only because +inf and -inf cancel) are skipped by Init
+        ctx.notes["cases_outside_domain_skipped"] = ctx.notes.get("cases_outside_domain_skipped", 0) + skipped
+        if skipped > 2 + len(cases) // 10:
+            ctx.machinery("TLC emitted %d terminal records for %d cases" % (len(jobs), len(cases)))
     return jobs
 
 
@@ -767,7 +800,7 @@ def plan_binding(ctx, prop, plan, parallel_plan, only_fits=False, builder_runs=0
         cases = build_cases(ctx, T, depth, plan, parallel_plan if depth == 2 else parallel_plan[:2], mult=1 if quick else 6,
                             allow_keepu=allow_keepu, rewrite_p=rewrite_p)
         if builder_runs:
-            fits_data = [c for c in cases if c["fmt"] == "fits" and c["has_data"] and not c["keepu"] and c["run"] in ("serial", "cli", "par2")]
+            fits_data = [c for c in cases if c["fmt"] == "fits" and c["has_finite"] and not c["keepu"] and c["run"] in ("serial", "cli", "par2")]
             for i, c in enumerate(fits_data[: builder_runs * (2 if depth == 2 else 1)]):
                 c["run"] = "builder-par2" if (c["run"] == "par2" or (i % 7 == 3 and depth == 2 and not quick)) else "builder"
         # quick tier: every children-first order for the first chunk, a window of 2 ready positions for the others
@@ -783,7 +816,7 @@ def plan_binding(ctx, prop, plan, parallel_plan, only_fits=False, builder_runs=0
                             mult=1, allow_keepu=allow_keepu, rewrite_p=rewrite_p)
         if builder_runs:
             for c in cases:
-                if c["fmt"] == "fits" and c["has_data"] and not c["keepu"] and c["run"] == "serial":
+                if c["fmt"] == "fits" and c["has_finite"] and not c["keepu"] and c["run"] == "serial":
                     c["run"] = "builder"
         tasks.append({"name": "MC%sd3" % prop, "T": 8, "depth": 3, "cases": cases, "chunk": 3, "window": 2})
     return tasks
@@ -891,6 +924,9 @@ def run(ctx):
                     "final": [[t["pos"], t["px"][0][0], t["rng"]] for t in rec["final"] if t["pos"][0] < meta["depth"]][:6]})
     ctx.assume("integer tiles hold non-negative values and no entirely-zero leaf; non-zero integer / alpha values are >= 4^depth so that a "
                "defined pixel never averages down to the undefined value 0 (DESIGN 5/C02 domain note)")
+    ctx.assume("+/-inf pixels are defined values: a block holding +inf (or -inf) averages to +inf (-inf); a block holding both has no mean and "
+               "the output pixel is undefined (IEEE inf - inf), the one case where an output is undefined although not all four inputs are; "
+               "pyramids in which a whole tile vanishes only through such cancellation are outside the domain (skipped by the spec's Init)")
     ctx.assume("stale parent files exist only at positions that have a child to merge; a childless stale parent is not judged")
     ctx.assume("pixel patterns are the lifted family (every real tile is the image of an abstract T x T tile, T = 2, 4, 8), not arbitrary noise; "
                "jpg is compared within +-%d on constant-colour leaves only" % JPG_TOL)
